@@ -555,8 +555,116 @@ fn history<M: GuestMemory>(mem: &M, h: &mut H, r: &mut Rng, nops: u64) {
     }
 }
 
+/// Sparse stream for transfers of gigabytes: it only looks at / provides the bytes at a few marker
+/// positions of the stream and claims the rest, so that nothing else is touched.
+struct Sparse {
+    pos: usize,
+    cap: usize,
+    markers: Vec<usize>,
+    seen: Vec<(usize, u8)>,
+    calls: usize,
+}
+impl vm_memory::WriteVolatile for Sparse {
+    fn write_volatile<B: vm_memory::bitmap::BitmapSlice>(&mut self, buf: &vm_memory::VolatileSlice<B>) -> Result<usize, vm_memory::VolatileMemoryError> {
+        let n = buf.len().min(self.cap);
+        for m in &self.markers {
+            if *m >= self.pos && *m < self.pos + n {
+                let mut b = [0u8; 1];
+                buf.read_slice(&mut b, *m - self.pos)?;
+                self.seen.push((*m, b[0]));
+            }
+        }
+        self.pos += n;
+        self.calls += 1;
+        Ok(n)
+    }
+}
+impl vm_memory::ReadVolatile for Sparse {
+    fn read_volatile<B: vm_memory::bitmap::BitmapSlice>(&mut self, buf: &mut vm_memory::VolatileSlice<B>) -> Result<usize, vm_memory::VolatileMemoryError> {
+        let n = buf.len().min(self.cap);
+        for m in &self.markers {
+            if *m >= self.pos && *m < self.pos + n {
+                buf.write_slice(&[0x40 | (*m % 61) as u8], *m - self.pos)?;
+                self.seen.push((*m, 0x40 | (*m % 61) as u8));
+            }
+        }
+        self.pos += n;
+        self.calls += 1;
+        Ok(n)
+    }
+}
+
+/// One region of 2 GiB + 8 KiB (never touched except at the markers) followed by an adjacent small
+/// one: stream transfers whose part inside a single region exceeds 2^31 bytes.
+#[cfg(not(feature = "xen"))]
+fn huge_region_streams() {
+    use vm_memory::{GuestMemoryMmap, GuestRegionMmap};
+    let big = (2usize << 30) + 8192;
+    let base = 0x2_0000_0000u64;
+    let ra = match GuestRegionMmap::<()>::from_range(GuestAddress(base), big, None) {
+        Ok(r) => r,
+        Err(e) => {
+            out::note("C03/huge-region-not-available", J::dbg(&e));
+            return;
+        }
+    };
+    let rb = GuestRegionMmap::<()>::from_range(GuestAddress(base + big as u64), 64, None).unwrap();
+    let gm = GuestMemoryMmap::from_regions(vec![ra, rb]).unwrap();
+    let start = 16usize;
+    let total = big - start + 40; // into the second region
+    // stream positions of interest (relative to the transfer start)
+    let marks: Vec<usize> = vec![0, 1, 0x7fff_efff - start, 0x7fff_f000 - start, 0x7fff_f001 - start, 0x7fff_ffff, 0x8000_0000, 0x8000_0001, big - start - 1, big - start, big - start + 1, total - 1];
+    for m in &marks {
+        let _ = gm.write_obj::<u8>(0x80 | (*m % 59) as u8, GuestAddress(base + (start + *m) as u64));
+    }
+    for (name, cap, exact) in [("write_volatile_to", usize::MAX, false), ("write_all_volatile_to", usize::MAX, true), ("write_volatile_to(sink-takes-1.5GiB-per-call)", 0x6000_0000, false), ("write_all_volatile_to(sink-takes-1GiB-per-call)", 0x4000_0000, true)] {
+        let mut sink = Sparse { pos: 0, cap, markers: marks.clone(), seen: vec![], calls: 0 };
+        let res = if exact { gm.write_all_volatile_to(GuestAddress(base + start as u64), &mut sink, total).map(|()| total) } else { gm.write_volatile_to(GuestAddress(base + start as u64), &mut sink, total) };
+        let want_seen: Vec<(usize, u8)> = marks.iter().map(|m| (*m, 0x80 | (*m % 59) as u8)).collect();
+        let mut seen = sink.seen.clone();
+        seen.sort();
+        let mut ws = want_seen.clone();
+        ws.sort();
+        if res.as_ref().ok() != Some(&total) || sink.pos != total || seen != ws {
+            out::viol(&format!("C03/huge/{}/stream-did-not-receive-the-guest-bytes-in-order", name.split('(').next().unwrap()), jobj! {"variant" => name, "result" => J::s(match &res { Ok(k) => format!("Ok({:#x})", k), Err(e) => gerr(e) }), "want" => format!("{:#x}", total), "sink_received" => format!("{:#x}", sink.pos), "markers_seen" => J::dbg(&seen), "markers_wanted" => J::dbg(&ws), "calls" => sink.calls});
+        }
+        out::key(&format!("huge|{}", name), true);
+        out::eval(1);
+    }
+    for (name, cap, exact) in [("read_volatile_from", usize::MAX, false), ("read_exact_volatile_from(source-gives-1GiB-per-call)", 0x4000_0000, true)] {
+        let mut src = Sparse { pos: 0, cap, markers: marks.clone(), seen: vec![], calls: 0 };
+        let res = if exact { gm.read_exact_volatile_from(GuestAddress(base + start as u64), &mut src, total).map(|()| total) } else { gm.read_volatile_from(GuestAddress(base + start as u64), &mut src, total) };
+        let moved = match &res {
+            Ok(k) => *k,
+            Err(_) => 0,
+        };
+        let mut bad = res.is_err() || src.pos != moved || (exact && moved != total) || moved == 0;
+        for m in marks.iter().filter(|m| **m < moved) {
+            if gm.read_obj::<u8>(GuestAddress(base + (start + *m) as u64)).ok() != Some(0x40 | (*m % 61) as u8) {
+                bad = true;
+            }
+        }
+        if bad {
+            out::viol(&format!("C03/huge/{}/stream-bytes-not-stored-in-order", name.split('(').next().unwrap()), jobj! {"variant" => name, "result" => J::s(match &res { Ok(k) => format!("Ok({:#x})", k), Err(e) => gerr(e) }), "source_consumed" => format!("{:#x}", src.pos), "calls" => src.calls});
+        }
+        // restore the markers for the next variant
+        for m in &marks {
+            let _ = gm.write_obj::<u8>(0x80 | (*m % 59) as u8, GuestAddress(base + (start + *m) as u64));
+        }
+        out::key(&format!("huge|{}", name), true);
+        out::eval(1);
+    }
+    out::count("huge_region_stream_variants", 6);
+}
+
 pub fn run(args: &Args) {
     out::set_quiet_cases(true);
+    #[cfg(not(feature = "xen"))]
+    if args.shard().0 == 0 && !cfg!(miri) && !args.flag("nohuge") {
+        if let Err(p) = guarded(huge_region_streams) {
+            out::viol(&format!("C03/panic/huge/{}", panic_sig(&p)), J::s(p));
+        }
+    }
     let minops = args.u64("minops", 20);
     let maxops = args.u64("maxops", 200);
     for case in args.cases(3000) {
